@@ -17,6 +17,8 @@ LEVEL = "other"
 def run(chk):
     cfgs = ["base", "z"] if chk.tier == "quick" else ["base", "z", "hi", "z+hi"]
     chk.configs = cfgs
+    chk.rule("SUCCESS.re-armed", "every Execute writes succeeded_ (= true, in Reset) before the sweep loop `while (succeeded_)` reads it: data added through "
+             "AddReuseableData (which clears the flag) is swept like any other")
     chk.rule("POLY.measure", "GetClosestPointOnSegment (used to pull an out-of-scanbeam intersection back onto a nearly horizontal edge), CrossProduct, DotProduct, "
              "DistanceSqr, PerpendicDistFromLineSqrd equal their defining real-number formulas")
     chk.rule("WRAP.no-passthrough", "Intersect / Union / Difference / Xor / BooleanOp never hand one of their path parameters back as the result (unless known "
@@ -43,6 +45,8 @@ def run(chk):
         from ..engines import e8_scale as _e8
         _e8.rule_no_passthrough(db, chk, cfg)
         e14.rule_topx(db, chk, cfg)
+        from .c11 import _success_flag
+        _success_flag(db, chk, cfg)          # the sweep loop runs `while (succeeded_)`: every Execute re-arms the flag first
         e14.rule_measure(db, chk, cfg)       # GetClosestPointOnSegment: the other correction of an out-of-scanbeam intersection
         rec = db.record("Active")
         for fd in rec.fields:
